@@ -73,7 +73,8 @@ def gen_cases(rng, tier):
         rows = []
         for _ in range(rng.randint(2, 8)):
             u, v = rng.sample(units, 2)
-            k = rng.choice([Fraction(9, 5), Fraction(5, 9), Fraction(1), Fraction(-2), Fraction(1, 3), Fraction(1000)])
+            k = rng.choice([Fraction(9, 5), Fraction(5, 9), Fraction(1), Fraction(-2), Fraction(1, 3), Fraction(1000),
+                            Fraction(3), Fraction(10), Fraction(7)])
             o = rng.choice([Fraction(0), Fraction(32), Fraction(-160, 9), Fraction(27315, 100), Fraction(1, 7)])
             rows.append((u, v, k, o))
         ops.append(["conv_table", f"T{ti}", fmt_rows(rows)])
